@@ -39,7 +39,7 @@ MUTANTS = {
     lambda t: edit(t, '                text.serialize(f)?;\n                writeln!(f, " Tj")?;', '                text.serialize(f)?;\n                writeln!(f, " \'")?;')),
  'v_when_c1_differs': ('serialize_ops/round_trip', '`v` chosen when c2 (not c1) equals the current point',
     lambda t: edit(t, 'if Some(c1) == current_point {', 'if Some(c2) == current_point {')),
- 'window_dquote_drops_op': ('serialize_ops/window_advance', 'after the `"` merge the window advances by 5 instead of 4: the next operation is dropped',
+ 'window_dquote_drops_op': ('serialize_ops/', 'after the `"` merge the window advances by 5 instead of 4: the next operation is dropped (window_advance) and `ops[5..]` panics when the merge ends the input (panic_free)',
     lambda t: edit(t, 'advance += 3;', 'advance += 4;')),
  'window_td_duplicates_op': ('serialize_ops/window_advance', 'after the TD merge the window advances by 1: MoveTextPosition is written a second time',
     lambda t: edit(t, '                    writeln!(f, "{} {} TD", translation.x, translation.y)?;\n                    advance += 1;', '                    writeln!(f, "{} {} TD", translation.x, translation.y)?;')),
